@@ -957,3 +957,9 @@ M("c15-bfs-queue-iterator-kept", "C15", "cola/libdialect/graphs.cpp",
 M("c15-neutral-bfs-queue-iterator-after-resize", "C15", "cola/libdialect/graphs.cpp",
   "            bfs_queue.resize(m+n);\n            std::transform(\n                newEdges.cbegin(), newEdges.cend(), bfs_queue.end() - n,",
   "            bfs_queue.resize(m+n);\n            auto dest = bfs_queue.end() - n;\n            std::transform(\n                newEdges.cbegin(), newEdges.cend(), dest,", expect="silent")
+M("c19-buckets-sized-by-max-degree-only", "C19", "cola/libdialect/peeling.cpp",
+  "    m_maxDegree(std::max(graph.getMaxDegree(), 1u)),", "    m_maxDegree(graph.getMaxDegree()),", mention=["BUCKETS-IN-RANGE"])
+M("c11-checkpoints-set-without-reroute", "C11", "cola/libavoid/connector.cpp",
+  "    // The current route was computed for the previous checkpoints.\n    makePathInvalid();\n    m_router->modifyConnector(this);\n",
+  "    // The current route was computed for the previous checkpoints.\n    if (m_checkpoints.empty()) makePathInvalid();\n    m_router->modifyConnector(this);\n",
+  mention=["CHECKPOINT-CHANGE-REROUTES"])
